@@ -59,6 +59,23 @@ Theorem C13_inner_constant :
     wf_scanner s0 -> nth_error (run scan [s0] h) c = Some s -> sc_inner s = sc_inner s0 /\ wf_scanner s.
 Proof. exact run_inner_wf. Qed.
 
+(* ---- what Compiler::define_symbol and Scanner::new establish: distinct names, every name mapped to its slot *)
+Theorem C13_compiler_symbols_distinct :
+  forall syms name v, NoDup (map fst syms) -> NoDup (map fst (fst (compiler_define syms name v))).
+Proof. exact compiler_define_nodup. Qed.
+
+Theorem C13_scanner_new_wf :
+  forall (compiled params udata : Type) (c : compiled) (p0 : params) syms,
+    wf_scanner (scanner_new (udata := udata) c p0 syms).
+Proof. exact (@scanner_new_wf). Qed.
+
+Theorem C13_scanner_new_slots :
+  forall (compiled params udata : Type) (c : compiled) (p0 : params) syms k name v,
+    NoDup (map fst syms) -> nth_error syms k = Some (name, v) ->
+    let s := scanner_new (udata := udata) c p0 syms in
+    sym_lookup name (i_symmap (sc_inner s)) = Some k /\ nth_error (sc_syms s) k = Some v.
+Proof. exact (@scanner_new_slots). Qed.
+
 (* ---- define_symbol is typed *)
 Theorem C13_define_symbol_typed :
   forall (compiled params udata : Type) (s : scanner compiled params udata) name v,
@@ -235,6 +252,13 @@ Example C13_history_outputs_example :
      CDef DUnknownName].
 Proof. vm_compute. reflexivity. Qed.
 
+Example C13_new_example :
+  scanner_new tt [0; 512; 1000; 0; 0; 1073741824; 0; 1; 0; 0]%N
+    (fst (compiler_define (fst (compiler_define (fst (compiler_define (fst (compiler_define [] "i0" (EInt 5)))
+       "s0" (EBytes [97%N; 98%N]))) "i0" (EBool true))) "b0" (EBool false)))
+  = ex_scanner.
+Proof. vm_compute. reflexivity. Qed.
+
 Example C13_wf_example :
   forallb (fun e => Nat.ltb (snd e) (length (sc_syms ex_scanner))) (i_symmap (sc_inner ex_scanner)) = true.
 Proof. vm_compute. reflexivity. Qed.
@@ -262,6 +286,9 @@ Print Assumptions C13_family_is_lineage_fold.
 Print Assumptions C13_scan_result_own_operations.
 Print Assumptions C13_other_clones_unchanged.
 Print Assumptions C13_inner_constant.
+Print Assumptions C13_compiler_symbols_distinct.
+Print Assumptions C13_scanner_new_wf.
+Print Assumptions C13_scanner_new_slots.
 Print Assumptions C13_define_symbol_typed.
 Print Assumptions C13_define_symbol_unknown.
 Print Assumptions C13_define_symbol_invalid_type.
